@@ -793,12 +793,17 @@ func (tree *MutableTree) SaveVersion() ([]byte, int64, error) {
 		}
 	}
 
+	// The cached latest version is advanced before the batch - and with it the fast index of the
+	// new version - becomes visible: a concurrent reader of the previous version must never take
+	// the updated index for the index of its own version.
+	prevLatestVersion := tree.ndb.getCachedLatestVersion()
+	tree.ndb.resetLatestVersion(version)
 	if err := tree.ndb.Commit(); err != nil {
+		tree.ndb.resetLatestVersion(prevLatestVersion)
 		return nil, version, err
 	}
 
 	verifPoint("save:after-commit")
-	tree.ndb.resetLatestVersion(version)
 	tree.version = version
 
 	// set new working tree
